@@ -89,7 +89,7 @@ CallDowngrade(t) == /\ pc[t] = "idle" /\ held[t] = "X" /\ nops[t] < MaxOps
                     /\ EndSec(t) /\ Goto(t, "DN_store") /\ Count(t)
                     /\ UNCHANGED <<w, cur, held, sid, nsec, rel>> /\ KeepX /\ KeepO /\ KeepG
 \* SetVersion has no atomic operation
-SetVersion(t, v) == /\ pc[t] = "idle" /\ held[t] = "X" /\ newv[t] = VInc(oldv[t])     \* (once per section in the model)
+SetVersion(t, v) == /\ pc[t] = "idle" /\ held[t] = "X"
                     /\ newv' = [newv EXCEPT ![t] = v]
                     /\ UNCHANGED <<w, pc, cur, held, nops, C, rel, oldv>> /\ KeepS /\ KeepO /\ KeepG
 CallGetVersion(t) == /\ WithOpt /\ pc[t] = "idle" /\ held[t] = "none" /\ nops[t] < MaxOps
@@ -218,7 +218,7 @@ Ret(t) == /\ pc[t] = "ret" /\ Goto(t, "idle")
 Call(t) == \/ \E m \in Modes : CallLock(t, m) \/ CallTryLock(t, m)
            \/ CallUnlock(t) \/ CallUpgrade(t) \/ CallDowngrade(t)
            \/ CallGetVersion(t) \/ CallVerify(t) \/ CallCVerify(t) \/ CallPrepare(t)
-           \/ \E v \in SetVers : SetVersion(t, v)
+           \/ \E v \in SetVers : newv[t] = VInc(oldv[t]) /\ SetVersion(t, v)     \* (once per section when model checking)
 OpStep(t) == \/ \E m \in Modes : LLoad(t, m) \/ LCas(t, m) \/ TLoad(t, m) \/ TCas(t, m)
              \/ USub(t) \/ UXor(t) \/ UStore(t) \/ UpLoad(t) \/ UpCas(t) \/ DnStore(t)
              \/ GVLoad(t) \/ VFence(t) \/ VLoad(t) \/ P1(t) \/ P2(t) \/ PCas(t)
